@@ -1,5 +1,7 @@
 import RV.Proofs.Kepler
 import RV.Proofs.KeplerTerm
+import RV.Proofs.KeplerBisect
+import RV.Proofs.KeplerDefect
 /-
   C03 — Kepler propagation is exact for every two-body orbit and time step.
 
@@ -308,6 +310,129 @@ theorem c03_halving_terminates_partial (fin : R → Bool) (hfin : ∀ x, fin x =
   rw [e1, e2, h1 fuel hf 0]; simp
 
 end term
+
+/-! ### truncation residual through the duplication loop -/
+
+/-- exact algebra of one duplication step on the defects `D0 = c0 − (1 − z c2)`, `D1 = c1 − (1 − z c3)`,
+    `D2 = c1² − (1+c0) c2` of the three Stumpff relations (any input, no hypotheses):
+    the quadratic defect is annihilated, the linear ones obey a linear recursion; and the defect of
+    `c0² + z c1² = 1` is `(1+c0) D0 + z D2`. -/
+theorem c03_defect_recursion (z : K) (c : Cs3 K) :
+    D2 (cs3DupStep c) = 0 ∧
+    D1 (4 * z) (cs3DupStep c) = c.c0 * D1 z c + D0 z c ∧
+    D0 (4 * z) (cs3DupStep c) = 2 * (1 + c.c0) * D0 z c + 2 * z * D2 c ∧
+    DP z c = (1 + c.c0) * D0 z c + z * D2 c ∧
+    (StumpffRel z c ↔ D0 z c = 0 ∧ D1 z c = 0 ∧ D2 c = 0) :=
+  ⟨(defect_step z c).1, (defect_step z c).2.1, (defect_step z c).2.2, defect_pythagoras z c, D_rel_iff z c⟩
+
+section defect
+variable {R : Type} [Field R] [LinearOrder R] [IsStrictOrderedRing R]
+
+/-- **what stumpff_cs3 returns, in exact arithmetic, for `n+1 ≥ 1` halvings**: starting from the Horner
+    series at `z` (whose only defect is the explicit `δ = z⁶·P(z)/13!²` of
+    `c03_series_truncation_residual`), after `n+1` duplications the quadratic relation holds exactly and
+      |c0 − (1 − Z c2)| ≤ 2·4ⁿ |z δ|,   |c1 − (1 − Z c3)| ≤ (4ⁿ−1)/3 · 2 |z δ|,
+      |c0² + Z c1² − 1| ≤ 4ⁿ⁺¹ |z δ| = |Z| |δ|            (Z = 4ⁿ⁺¹ z the full argument)
+    as long as the intermediate and final `c0` lie in [−1, 1] (cosines: the elliptic case).
+    With |z| ≤ 0.1, |δ| ≤ 2.3e-17: the truncation contributes ≤ 2.3e-17·|Z| to `cos² + sin² = 1`, below
+    the measured rounding growth 40 ε |Z|.
+    `_partial`: the hypothesis `|c0| ≤ 1` is not derived (it holds for the exact cosine; for the
+    truncated data it holds up to the very defects bounded here), and the hyperbolic case (c0 = cosh
+    grows) is not covered. -/
+theorem c03_truncation_through_duplication_partial (n : Nat) (z : R)
+    (hc : ∀ k ≤ n + 1, 1 ≤ k → |(cs3Dup k (cs3Series z)).c0| ≤ 1) :
+    let c := cs3Dup (n + 1) (cs3Series z)
+    let Z := 4 ^ (n + 1) * z
+    let δ := D2 (cs3Series z)
+    D2 c = 0 ∧ |D0 Z c| ≤ 2 * 4 ^ n * |z * δ| ∧ |D1 Z c| ≤ (4 ^ n - 1) / 3 * (2 * |z * δ|) ∧
+    |DP Z c| ≤ 4 ^ (n + 1) * |z * δ| := by
+  intro c Z δ
+  obtain ⟨s2, s1, s0⟩ := defect_step z (cs3Series z)
+  obtain ⟨z0, z1⟩ := defect_series z
+  rw [z0, mul_zero, zero_add] at s0
+  rw [z0, z1, mul_zero, add_zero] at s1
+  have hc' : ∀ k < n, |(cs3Dup k (cs3DupStep (cs3Series z))).c0| ≤ 1 := fun k hk => by
+    have := hc (k + 1) (by omega) (by omega); simpa [cs3Dup] using this
+  obtain ⟨b0, b1, b2⟩ := defect_bound n (4 * z) (cs3DupStep (cs3Series z)) s2 hc'
+  have eZ : Z = 4 ^ n * (4 * z) := by show (4 : R) ^ (n + 1) * z = _; ring
+  have ec : c = cs3Dup n (cs3DupStep (cs3Series z)) := rfl
+  have hd0 : |D0 (4 * z) (cs3DupStep (cs3Series z))| = 2 * |z * δ| := by
+    rw [s0]; show |2 * z * D2 (cs3Series z)| = _
+    rw [mul_assoc, abs_mul, abs_of_pos (by norm_num : (0 : R) < 2)]
+  have hD2 : D2 c = 0 := by
+    by_cases hn : 0 < n
+    · rw [ec]; exact b2 hn
+    · have : n = 0 := by omega
+      subst this; simpa [ec, cs3Dup] using s2
+  rw [s1, abs_zero, zero_add, hd0] at b1
+  rw [hd0] at b0
+  rw [← eZ, ← ec] at b0 b1
+  have hfin : |c.c0| ≤ 1 := hc (n + 1) (le_refl _) (by omega)
+  refine ⟨hD2, by linarith, b1, ?_⟩
+  rw [defect_pythagoras, hD2, mul_zero, add_zero, abs_mul]
+  have h1c : |(1 : R) + c.c0| ≤ 2 := by
+    rw [abs_le] at hfin ⊢; constructor <;> linarith
+  have hpos : (0 : R) < 4 ^ n := by positivity
+  calc |1 + c.c0| * |D0 Z c| ≤ 2 * (4 ^ n * (2 * |z * δ|)) := by
+        nlinarith [abs_nonneg (D0 Z c), abs_nonneg ((1 : R) + c.c0)]
+    _ = 4 ^ (n + 1) * |z * δ| := by ring
+
+end defect
+
+/-! ### bisection fallback (lines 251-287) over an ordered field -/
+section bisect
+variable {R : Type} [Field R] [LinearOrder R] [IsStrictOrderedRing R]
+
+/-- loop invariant of the bisection: one pass of the body (`bisectUpdate`, the branch taken on
+    `s >= 0.` as in the pinned source) keeps `F ≤ 0` at the lower end and `0 ≤ F` at the upper end of the
+    bracket — for *any* function `F` whose value at the midpoint is the `s` the code computed —, stays
+    inside the old bracket, halves its width and proposes its midpoint: a root that is bracketed stays
+    bracketed. -/
+theorem c03_bisection_invariant (F : R → R) (Xmin Xmax : R) (hle : Xmin ≤ Xmax)
+    (hlo : F Xmin ≤ 0) (hhi : 0 ≤ F Xmax) :
+    let X := (Xmax + Xmin) / 2
+    let r := bisectUpdate (ScalarO.le (Scalar.zero : R) (F X)) X Xmin Xmax
+    F r.1 ≤ 0 ∧ 0 ≤ F r.2.1 ∧ Xmin ≤ r.1 ∧ r.1 ≤ r.2.1 ∧ r.2.1 ≤ Xmax ∧
+      r.2.1 - r.1 = (Xmax - Xmin) / 2 ∧ r.2.2 = (r.2.1 + r.1) / 2 :=
+  bisect_invariant F Xmin Xmax hle hlo hhi
+
+/-- hyperbolic bracket as coded, for both signs of dt (the swap for dt < 0 is what seeded change C03-b
+    removes): it is ordered, equals `[dt/(a+r0), dt/q]` for dt > 0 and `[dt/q, dt/(a+r0)]` for dt < 0,
+    and lies strictly on the side of 0 that has the sign of dt.  `a = |vq·dt|`, `0 < q ≤ a + r0`. -/
+theorem c03_hyperbolic_bracket_ordered (q a r0 dt : R) (hq : 0 < q) (hqr : q ≤ a + r0) :
+    let b := hypBracket q a r0 dt
+    b.1 ≤ b.2 ∧ (0 < dt → b = (dt / (a + r0), dt / q) ∧ 0 < b.1) ∧
+      (dt < 0 → b = (dt / q, dt / (a + r0)) ∧ b.2 < 0) := hypBracket_ordered q a r0 dt hq hqr
+
+/-- the hypothesis of the previous theorem holds: the pericentre distance of line 260,
+    `q = h²/M/(1 + sqrt(1 − h²β/M²))`, satisfies `0 < q ≤ r0` (for any `e ≥ 0` with `e² = 1 − h²β/M²`) -/
+theorem c03_pericentre_le_r0 (M r0 v2 eta0 e : R) (hM : 0 < M) (hr0 : 0 < r0)
+    (hh : 0 < r0 * r0 * v2 - eta0 * eta0) (he : 0 ≤ e)
+    (hee : e * e = 1 - (r0 * r0 * v2 - eta0 * eta0) * (2 * M * (1 / r0) - v2) / (M * M)) :
+    0 < (r0 * r0 * v2 - eta0 * eta0) / M / (1 + e) ∧ (r0 * r0 * v2 - eta0 * eta0) / M / (1 + e) ≤ r0 :=
+  hyp_q_le_r0 M r0 v2 eta0 e hM hr0 hh he hee
+
+/-- elliptic bracket `[X_pp·k, X_pp·(k+1)]`, `k = floor(dt·invperiod)`: ordered, one period wide; and the
+    Kepler function at its ends has the right signs for both signs of dt: at a whole number of periods
+    (`G1 = G2 = 0`, `G3 = X/β` by the G-relations) it equals `kP − dt`, and `kP ≤ dt < (k+1)P`.
+    `_partial`: that `G2` vanishes at multiples of `X_per_period` (periodicity of the cosine) is a
+    hypothesis (analysis); the corresponding sign statement for the hyperbolic bracket,
+    `f(dt/(a+r0)) ≤ 0 ≤ f(dt/q)`, is NOT proved: it is equivalent to the monotonicity of
+    `t ↦ sinh t − t` between pericentre and the end point and is not a polynomial consequence of the
+    G-relations at the two bracket ends. -/
+theorem c03_elliptic_bracket_partial (M r0 eta0 beta dt xpp P k : R) (hb : beta ≠ 0) (hP : 0 < P) (hx : 0 < xpp)
+    (hxP : xpp * M / beta = P) (hk1 : k * P ≤ dt) (hk2 : dt < (k + 1) * P) :
+    let f := fun (X G2 G3 : R) => r0 * X + eta0 * G2 + (M - beta * r0) * G3 - dt
+    (ellBracket xpp k).1 < (ellBracket xpp k).2 ∧ (ellBracket xpp k).2 - (ellBracket xpp k).1 = xpp ∧
+    f (ellBracket xpp k).1 0 ((ellBracket xpp k).1 / beta) ≤ 0 ∧
+    0 < f (ellBracket xpp k).2 0 ((ellBracket xpp k).2 / beta) := by
+  obtain ⟨o1, o2, o3, o4⟩ := ellBracket_ordered xpp k hx
+  obtain ⟨s1, s2⟩ := ell_bracket_signs M r0 eta0 beta dt xpp P k hb hP hxP hk1 hk2
+  intro f
+  rw [o3, o4]
+  exact ⟨by rw [← o3, ← o4]; exact o1, by rw [← o3, ← o4]; exact o2, s1, s2⟩
+
+end bisect
 
 /-! ### the hypotheses are satisfiable (concrete, non-degenerate rational instances) -/
 
